@@ -10,7 +10,7 @@ HERE=$(dirname "$(realpath "$0")")
 REPO=${1:-/repo}
 D=$(mktemp -d /tmp/compile_compat.XXXXXX)
 trap 'rm -rf "$D"' EXIT
-cd "$D" && python3 "$HERE/gen.py" >/dev/null && python3 "$HERE/gen2.py" >/dev/null
+cd "$D" && python3 "$HERE/gen.py" >/dev/null && python3 "$HERE/gen2.py" >/dev/null && python3 "$HERE/gen3.py" >/dev/null
 out=$(xargs -a "$HERE/compiled_on_pinned_tree.txt" -P 16 -I{} sh -c "g++ -std=c++17 -fsyntax-only -w -I'$REPO/code/include' {} >/dev/null 2>&1 || echo 'LOST {}'")
 n=$(wc -l < "$HERE/compiled_on_pinned_tree.txt")
 if [ -n "$out" ]; then echo "$out"; echo "programs of the pinned tree that no longer compile with $REPO: $(echo "$out" | wc -l) of $n"; exit 1; fi
